@@ -1,1 +1,218 @@
-../C24/kvdrv.ml
+(* Shared driver of C22 / C23 / C24.  The master copy is coq/extract/C24/kvdrv.ml; C22 and C23 hold copies
+   refreshed by the pre_build_cmd of checks/C22.json and checks/C23.json (edit only the C24 file).
+   Parses the case format documented in harness/kvh/kvh.go, steps the extracted MODEL
+   (KvStack.run_op) and the extracted SPECIFICATION (KvStackSpec.spec_run_op) over the same
+   operations and compares both with the implementation's observation tokens.
+   No model logic here: parsing, printing, comparison. *)
+open Model
+open Conv
+
+let bytes_of_tok (s : string) : n list =
+  if s = "-" || s = "~" then []
+  else if String.length s > 0 && s.[0] = '*' then begin
+    match String.split_on_char '*' s with
+    | [""; cnt; hh] ->
+      let b = n_of_z (Z.of_int (int_of_string ("0x" ^ hh))) in
+      List.init (int_of_string cnt) (fun _ -> b)
+    | _ -> failwith ("bad bytes token " ^ s)
+  end else bytes_of_hex s
+
+let tok_of_bytes (l : n list) : string =
+  match l with
+  | [] -> "-"
+  | b :: _ when List.length l > 32 && List.for_all (fun x -> x = b) l ->
+    Printf.sprintf "*%d*%02x" (List.length l) (Z.to_int (z_of_n b))
+  | _ -> hex_of_bytes l
+
+let okey_of_tok (s : string) : n list option = if s = "~" then None else Some (bytes_of_tok s)
+let tok_of_okey = function None -> "~" | Some k -> tok_of_bytes k
+
+let handle_of_tok (s : string) : handle =
+  match String.split_on_char '/' s with
+  | d :: path -> { h_d = nat_of_tok d; h_path = List.map bytes_of_tok path }
+  | [] -> failwith "bad handle"
+
+(* header -> model state, spec state *)
+let init_of_header (hd : string list) : st * sst =
+  match hd with
+  | [] -> failwith "empty header"
+  | base :: layers ->
+    let m0, s0 = (match base with
+      | "mem" -> Mem [], SEng []
+      | "ldb" | "ldb!" -> Eng (ELdb, []), SEng []
+      | "pbl" | "pbl!" -> Eng (EPbl, []), SEng []
+      | _ -> failwith ("bad base " ^ base)) in
+    List.fold_left (fun (m, s) l ->
+      if l = "f" then (Flu ([], m), SFlu ([], s))
+      else if l = "z" then (Lzy ([], false, m), SLzy ([], false, s))
+      else if l = "s" then (Syn m, SSyn s)
+      else if String.length l >= 1 && l.[0] = 't' then
+        let p = bytes_of_tok (String.sub l 1 (String.length l - 1)) in (Tab (p, m), STab (p, s))
+      else failwith ("bad layer " ^ l)) (m0, s0) layers
+
+type pop = Op of op | Lit of string * handle * n list option * n list option | Lnext of string | Lrel of string
+
+let parse_op (t : string list) : pop =
+  match t with
+  | ["put"; h; k; v] -> Op (OPut (handle_of_tok h, bytes_of_tok k, bytes_of_tok v))
+  | ["del"; h; k] -> Op (ODel (handle_of_tok h, bytes_of_tok k))
+  | ["get"; h; k] -> Op (OGet (handle_of_tok h, bytes_of_tok k))
+  | ["has"; h; k] -> Op (OHas (handle_of_tok h, bytes_of_tok k))
+  | ["it"; h; p; s] -> Op (OIter (handle_of_tok h, okey_of_tok p, okey_of_tok s))
+  | ["bnew"; b; h] -> Op (OBNew (nat_of_tok b, handle_of_tok h))
+  | ["bput"; b; k; v] -> Op (OBPut (nat_of_tok b, bytes_of_tok k, bytes_of_tok v))
+  | ["bdel"; b; k] -> Op (OBDel (nat_of_tok b, bytes_of_tok k))
+  | ["bwrite"; b] -> Op (OBWrite (nat_of_tok b))
+  | ["breset"; b] -> Op (OBReset (nat_of_tok b))
+  | ["brep"; b] -> Op (OBReplay (nat_of_tok b))
+  | ["flush"; d] -> Op (OFlush (nat_of_tok d))
+  | ["drop"; d] -> Op (ODrop (nat_of_tok d))
+  | ["nfp"; d] -> Op (ONfp (nat_of_tok d))
+  | ["snap"; h] -> Op (OSnap (handle_of_tok h))
+  | ["sget"; i; k] -> Op (OSGet (nat_of_tok i, bytes_of_tok k))
+  | ["shas"; i; k] -> Op (OSHas (nat_of_tok i, bytes_of_tok k))
+  | ["sit"; i; p; s] -> Op (OSIter (nat_of_tok i, okey_of_tok p, okey_of_tok s))
+  | ["compact"; h; a; l] -> Op (OCompact (handle_of_tok h, okey_of_tok a, okey_of_tok l))
+  | ["lit"; id; h; p; s] -> Lit (id, handle_of_tok h, okey_of_tok p, okey_of_tok s)
+  | ["lnext"; id; _] -> Lnext id
+  | ["lrel"; id] -> Lrel id
+  | _ -> failwith ("bad op: " ^ String.concat " " t)
+
+let toks_of_obs (o : obs) : string list =
+  match o with
+  | BGet None -> ["G"; "~"]
+  | BGet (Some v) -> ["G"; tok_of_bytes v]
+  | BHas b -> ["H"; if b then "1" else "0"]
+  | BIter l -> "I" :: string_of_int (List.length l) ::
+               List.concat_map (fun (k, v) -> [tok_of_bytes k; tok_of_bytes v]) l
+  | BReplay l -> "R" :: string_of_int (List.length l) ::
+                 List.concat_map (function WPut (k, v) -> ["P"; tok_of_bytes k; tok_of_bytes v]
+                                         | WDel k -> ["D"; tok_of_bytes k]) l
+  | BNfp n -> ["N"; tok_of_nat n]
+  | BCompact (Some (lo, hi)) -> ["C"; tok_of_okey lo; tok_of_okey hi]
+  | BCompact None -> ["C"; "!"; "!"]
+  | BNone -> ["X"]
+
+(* take the implementation's tokens of one observation off the stream *)
+let rec take n l = if n <= 0 then ([], l) else match l with [] -> ([], []) | x :: r -> let (a, b) = take (n - 1) r in (x :: a, b)
+let next_chunk (impl : string list) : string list * string list =
+  match impl with
+  | [] -> ([], [])
+  | ("G" | "H" | "N") :: _ -> take 2 impl
+  | "C" :: _ -> take 3 impl
+  | "X" :: r -> (["X"], r)
+  | ("I" | "L") :: n :: r -> (match int_of_string_opt n with
+      | Some n -> let (a, b) = take (2 * n) r in (List.hd impl :: string_of_int n :: a, b)
+      | None -> (impl, []))
+  | "R" :: n :: r -> (match int_of_string_opt n with
+      | Some n ->
+        let rec go i acc l = if i = 0 then (List.rev acc, l) else
+          match l with
+          | "P" :: k :: v :: r -> go (i - 1) (v :: k :: "P" :: acc) r
+          | "D" :: k :: r -> go (i - 1) (k :: "D" :: acc) r
+          | _ -> (List.rev acc @ l, []) in
+        let (a, b) = go n [] r in ("R" :: string_of_int n :: a, b)
+      | None -> (impl, []))
+  | t :: r -> ([t], r)      (* ERR:... / PANIC ... : never matches a prediction *)
+
+let ncmp a b = match lex_compare a b with Lt -> -1 | Eq -> 0 | Gt -> 1
+
+(* what the property can mean for an iterator that stays alive across writes: strictly ascending
+   keys, every key has the prefix and is >= prefix ++ start *)
+let live_ok (prefix, start, last) (chunk : string list) : bool * n list option =
+  match chunk with
+  | "L" :: _ :: kvs ->
+    let p = (match prefix with Some p -> p | None -> []) and s = (match start with Some s -> s | None -> []) in
+    let rec go last = function
+      | k :: _ :: r ->
+        let k = bytes_of_tok k in
+        if has_prefix p k && ncmp (p @ s) k <= 0 && (match last with None -> true | Some l -> ncmp l k < 0)
+        then go (Some k) r else (false, last)
+      | _ -> (true, last) in
+    go last kvs
+  | ["X"] -> (true, last)
+  | _ -> (false, last)
+
+(* UNIQ t1 t2 ... : reflect.go.  obs = U ok|err (OpenTables = uniqKeys.Check) then the raw content
+   after writing value <i> at key 6b through the table MigrateTables created for tag i. *)
+let rec eval (inp : string list) (impl : string list) : Drv.verdict =
+  match inp with
+  | "UNIQ" :: tags ->
+    let tags = List.map bytes_of_tok tags in
+    let used = table_tags tags in
+    let u_model = if uniq_check used then "ok" else "err" in
+    let puts = List.mapi (fun i p -> ["put"; "0/" ^ tok_of_bytes p; "6b"; Printf.sprintf "%02x" (i + 1)]) used in
+    let hist = ["mem"] @ List.concat_map (fun o -> ";" :: o) (puts @ [["it"; "0"; "~"; "~"]]) in
+    (match impl with
+     | "U" :: u :: rest ->
+       let v = eval_history hist rest in
+       let sound = (u <> "ok") || incomparable_all used in
+       { v with Drv.model_obs = "U" :: u_model :: v.Drv.model_obs;
+                spec_ok = (match v.Drv.spec_ok with Some b -> Some (b && sound) | None -> Some sound);
+                note = (if sound then v.Drv.note else "uniqKeys.Check accepted comparable prefixes") }
+     | _ -> { Drv.default_verdict with model_obs = ["U"; u_model]; spec_ok = Some false })
+  | _ -> eval_history inp impl
+
+and eval_history (inp : string list) (impl : string list) : Drv.verdict =
+  let parts = split_on ";" inp in
+  let header, ops = (match parts with h :: o -> h, o | [] -> failwith "empty case") in
+  let m0, s0 = init_of_header header in
+  let r = ref { r_store = m0; r_batches = []; r_snaps = [] } in
+  let sr = ref { ss_store = s0; ss_batches = []; ss_snaps = [] } in
+  let rest = ref impl in
+  let model_toks = ref [] and spec_ok = ref true and ms_ok = ref true and nontriv = ref false in
+  let note = ref "" in
+  let lives : (string, (n list option * n list option * n list option)) Hashtbl.t = Hashtbl.create 4 in
+  let opno = ref 0 in
+  let fail_spec what = if !spec_ok then note := Printf.sprintf "first spec mismatch at op %d (%s)" !opno what; spec_ok := false in
+  List.iter (fun t ->
+    incr opno;
+    if t <> [] then
+    match parse_op t with
+    | Op o ->
+      let (r', om) = run_op ideal_batch_size !r o in
+      let (sr', os) = spec_run_op !sr o in
+      let sr_before = !sr in
+      r := r'; sr := sr';
+      List.iter2 (fun om os ->
+        let mt = toks_of_obs om in
+        model_toks := List.rev_append mt !model_toks;
+        let (chunk, rest') = next_chunk !rest in
+        rest := rest';
+        (match o, om with
+         | OCompact (h, a, l), BCompact rng ->
+           if not (compact_ok sr_before.ss_store h a l rng) then ms_ok := false;
+           (match chunk with
+            | ["C"; ilo; ihi] ->
+              let irng = if ilo = "!" then None else Some (okey_of_tok ilo, okey_of_tok ihi) in
+              if not (compact_ok sr_before.ss_store h a l irng) then fail_spec "compact range does not cover the table"
+            | _ -> fail_spec "compact")
+         | _ ->
+           let st = toks_of_obs os in
+           if st <> mt then ms_ok := false;
+           if st <> chunk then fail_spec (String.concat " " t);
+           (match om with
+            | BIter (_ :: _) | BGet (Some _) | BReplay (_ :: _) -> nontriv := true
+            | BNfp n when n <> O -> nontriv := true
+            | _ -> ()))) om os
+    | Lit (id, _, p, s) -> Hashtbl.replace lives id (p, s, None)
+    | Lnext id ->
+      let (chunk, rest') = next_chunk !rest in
+      rest := rest';
+      model_toks := List.rev_append chunk !model_toks;      (* not modelled: echoed *)
+      (match Hashtbl.find_opt lives id with
+       | Some (p, s, last) ->
+         let (ok, last') = live_ok (p, s, last) chunk in
+         Hashtbl.replace lives id (p, s, last');
+         if not ok then fail_spec "live iterator: order/prefix"
+       | None -> if chunk <> ["X"] then fail_spec "live iterator")
+    | Lrel id -> Hashtbl.remove lives id
+  ) ops;
+  if !rest <> [] then begin
+    (* extra implementation tokens (ERR:..., PANIC ...) *)
+    fail_spec ("unexpected tokens: " ^ String.concat " " !rest)
+  end;
+  let model_obs = List.rev !model_toks in
+  (* an ERR/PANIC token inside the stream makes impl <> model as well *)
+  { Drv.default_verdict with model_obs; spec_ok = Some !spec_ok; model_spec_ok = !ms_ok;
+    nontrivial = !nontriv; note = !note }
